@@ -58,6 +58,7 @@ FAMILIES = {
               "weights": {"enq": 4, "consume": 1, "consume_bg": 6, "join": 4, "pause": 3, "ack": 2, "finish": 0, "sleep": 1, "reject": 0, "nack": 0, "requeue": 0}}),
     "pause-directed": "directed",
     "maint-directed": "directed",
+    "backlog-directed": "directed",
     # broker maintenance (run when any client connects or disconnects) while messages with short, default and day-long execution
     # timeouts are in flight with live consumers: nothing is taken away from a live holder before its timeout
     "maint": ([("q1", None, "NORMAL")], ["ta"],
@@ -105,6 +106,20 @@ def directed_pause():
     return out
 
 
+def directed_backlog():
+    """k messages of a topic nobody here serves -- waiting, or delayed and already due -- sit in front of one message of the
+    consumer's own topic: the consumer's own message is delivered within the latency bound, however long the foreign backlog"""
+    out = []
+    all_w = {"enq": 1, "consume": 1, "ack": 1, "sleep": 1, "finish": 1}
+    for k in (3, 9, 10, 12, 25):
+        for fdelay, odelay in ((-5, -5), (200, 200), (None, None), (200, None), (-5, 300)):
+            ops = [("start", 0)] + [("enqx", "tb", fdelay, None)] * k + [("enqx", "ta", odelay, None), ("sleep", 400),
+                                                                        ("consume", 0), ("ack", 0, 0), ("enqx", "ta", odelay, None), ("sleep", 400), ("consume", 0), ("ack", 0, 0)]
+            out.append(dict(seed=7800 + len(out), consumers=[("q1", ["ta"], "NORMAL")], topics=["ta", "tb"], script=ops, weights=all_w,
+                            consume_tmo_ms=[4000], max_ids=40, no_defer=True, no_inject=True))
+    return out
+
+
 def directed_maint():
     """a message with execution timeout T is held by a live consumer for w seconds; other clients connect / disconnect
     (maintenance) meanwhile; then it is settled, and a second one goes through: nothing is taken from a live holder"""
@@ -122,7 +137,7 @@ def directed_maint():
 
 PER_PROPERTY = {
     "C01": ["n", "n+x", "n+d", "n+n", "topics", "2q", "same-due", "same-due-topics", "flush"],
-    "C05": ["delay", "latency", "due-behind", "n+d", "same-due"],
+    "C05": ["delay", "latency", "due-behind", "backlog-directed", "n+d", "same-due"],
     "C12": ["ttl", "n+x", "n"],
     "C14": ["n+n", "topics", "n+x", "2q", "maint", "maint-directed"],
     "C15": ["fifo1", "fifoprio", "fifo-ret", "starve", "pause", "pause-directed", "n"],
@@ -210,7 +225,9 @@ def run(pid: str, tier: str, seed: int, *, replay: dict | None = None) -> int:
         for be in BACKENDS:
             for fam in PER_PROPERTY[pid]:
                 if FAMILIES[fam] == "directed":
-                    scs += [dict(sc, backend=be) for sc in (directed_pause() if fam == "pause-directed" else directed_maint())]
+                    scs += [dict(sc, backend=be) for sc in {"pause-directed": directed_pause, "maint-directed": directed_maint,
+                                                            "backlog-directed": directed_backlog}[fam]()
+                            if not (fam == "backlog-directed" and be == "rabbit")]   # (RabbitMQ: finding rabbit-foreign-topic-blocks, owned by C11)
                     continue
                 consumers, topics, extra = FAMILIES[fam]
                 for s in range(nseeds if be == "inmem" else max(3, nseeds // 2)):
